@@ -153,6 +153,8 @@ class Request:
             if outcome[0] == "lazy":
                 return outcome[1]()
             return outcome[1]  # for "raise": an Exception instance fails the same position
+        if ip.delivery == "slowc":
+            return self._coro_slow(outcome, "item" + pstr(ipath), False, ipath)
         return self.ext("item" + pstr(ipath), outcome, kind="item", pos=ipath).fut
 
     def deliver_list(self, item_t, values, path):
